@@ -35,6 +35,8 @@ REGISTRY = dict(
     technique="machine-checked proof in Coq (induction over histories, index arithmetic) + regenerated-fragment interface lemmas + differential correspondence",
 )
 
+COV_TARGETS = {"stable_baselines3/common/monitor.py": None, "stable_baselines3/common/vec_env/vec_monitor.py": None, "stable_baselines3/common/evaluation.py": None}
+
 HEADER = """From Coq Require Import List ZArith Bool.
 From SB3V Require Import Model.Script Model.Monitor Model.Evaluate.
 Import ListNotations.
@@ -88,7 +90,14 @@ def gen_case(rng, i):
             for o in ops:
                 if o[1] == "r":
                     o.append(rng.randint(1, 9))
-        return {"kind": kind, "scripts": scripts, "allow": rng.random() < 0.6, "ops": ops, "reset_kw": reset_kw,
+        append = (not two) and rng.random() < 0.15
+        if append:   # a second Monitor continues the same file (override_existing=False)
+            ops += [[1, "r"] + ([rng.randint(1, 9)] if reset_kw else [])] + [[1, "s"] for _ in range(rng.randint(1, 7))]
+        missing_kw = reset_kw and not append and rng.random() < 0.15
+        if missing_kw:   # the last operation is a reset WITHOUT the required keyword: ValueError
+            ops.append([0, "r_missing"])
+        return {"kind": kind, "scripts": scripts, "allow": rng.random() < 0.6, "ops": ops, "reset_kw": reset_kw, "append": append,
+                "dir_filename": (not two) and (not append) and rng.random() < 0.2,
                 "reward_scale": rng.choice([None, None, None, 0.3337, 1e-3 / 3, 1234.567]),
                 "info_keywords": rng.choice([[], ["tag"], ["tag", "k1"]]), "id": i}
     if kind == "vecmon":
@@ -96,11 +105,12 @@ def gen_case(rng, i):
         scripts = [se.gen_script(rng, max_len=5) for _ in range(k)]
         n_ops = rng.randint(1, 22)
         ops = ["r"] + [("r" if rng.random() < 0.15 else "s") for _ in range(n_ops)]
-        return {"kind": kind, "scripts": scripts, "ops": ops, "info_keywords": rng.choice([[], ["tag"], ["tag", "k1"]]),
+        return {"kind": kind, "scripts": scripts, "ops": ops, "info_keywords": rng.choice([[], ["tag"], ["tag", "k1"]]), "inner_monitor": rng.random() < 0.2,
                 "reward_scale": rng.choice([None, None, None, 0.3337, 1e-3 / 3, 1234.567]), "id": i}
     k = rng.randint(1, 6)
     scripts = [se.gen_script(rng, max_len=rng.choice([2, 4, 7])) for _ in range(k)]
-    return {"kind": kind, "scripts": scripts, "n": rng.randint(1, 15), "mode": rng.choice([0, 1, 2, 3]),
+    mode = rng.choice([0, 1, 2, 3, 0, 1, 2, 3, 4, 5])
+    return {"kind": kind, "scripts": scripts, "n": rng.randint(1, 15), "mode": mode, "raw_env": k == 1 and mode in (0, 1, 3, 5) and rng.random() < 0.5,
             "threshold": rng.choice([None, None, rng.randint(-16, 16) / 4.0]), "id": i}
 
 
@@ -111,6 +121,15 @@ def _rows(df, keys):
     for _, row in df.iterrows():
         out.append([float(row["r"]), int(row["l"])] + [(None if row[k] != row[k] else int(row[k])) for k in keys])
     return out
+
+
+def mon_scripts(case):
+    """scripts of all Monitor objects of a case: with "append" a further Monitor (same script as the first, fresh env) re-opens the
+    first one's file with override_existing=False after the other operations"""
+    return case["scripts"] + ([case["scripts"][0]] if case.get("append") else [])
+
+
+APPEND_SIG = "monitor-append-mode-episodes-misordered-by-load-results"
 
 
 def run_monitor(case):
@@ -130,12 +149,33 @@ def run_monitor(case):
                 o, r, te, tr, info = super().step(action)
                 return o, (r if scale is None else r * scale), te, tr, info
 
-        envs = [KwEnv(sc, extra_info={"k1": 7 + j}, env_id=j) for j, sc in enumerate(case["scripts"])]
-        mons = [M.Monitor(e, filename=os.path.join(d, f"m{j}"), allow_early_resets=case["allow"], info_keywords=kw, reset_keywords=rkw) for j, e in enumerate(envs)]
+        # an empty directory has no monitor files
+        try:
+            M.load_results(d)
+            empty_dir_raises = False
+        except M.LoadMonitorResultsError:
+            empty_dir_raises = True
+        envs = [KwEnv(sc, extra_info={"k1": 7 + j}, env_id=j) for j, sc in enumerate(mon_scripts(case))]
+        n_first = len(case["scripts"])
+        # filename may also be an existing directory (the file is then <dir>/monitor.csv)
+        fname = (lambda j: d) if case.get("dir_filename") else (lambda j: os.path.join(d, f"m{j}"))
+        mons = [M.Monitor(e, filename=fname(j), allow_early_resets=case["allow"], info_keywords=kw, reset_keywords=rkw) for j, e in enumerate(envs[:n_first])]
         events = []
         for o in case["ops"]:
             w, op = o[0], o[1]
+            if w == n_first and len(mons) == n_first:
+                mons[0].close()
+                mons.append(M.Monitor(envs[w], filename=os.path.join(d, "m0"), allow_early_resets=case["allow"], info_keywords=kw, reset_keywords=rkw, override_existing=False))
             m = mons[w]
+            if op == "r_missing":
+                try:
+                    m.reset()
+                    events.append({"w": w, "op": "r_missing", "out": "accepted"})
+                except ValueError:
+                    events.append({"w": w, "op": "r_missing", "out": "ValueError"})
+                except RuntimeError:
+                    events.append({"w": w, "op": "r_missing", "out": "RuntimeError"})
+                continue
             if op == "r":
                 try:
                     m.reset(**({"difficulty": o[2]} if rkw else {}))
@@ -154,8 +194,10 @@ def run_monitor(case):
                   "times": [float(x) for x in m.get_episode_times()], "total_steps": int(m.get_total_steps()), "env_log": [e[0] for e in envs[j].log]} for j, m in enumerate(mons)]
         for m in mons:
             m.close()
+        dir_file_ok = (not case.get("dir_filename")) or os.path.exists(os.path.join(d, "monitor.csv"))
         rows = _rows(M.load_results(d), kw + rkw)
-        return {"events": events, "stats": stats, "rows": rows}
+        return {"events": events, "stats": stats, "rows": rows, "empty_dir_raises": empty_dir_raises,
+                "dir_file_ok": dir_file_ok}
     finally:
         shutil.rmtree(d, ignore_errors=True)
 
@@ -173,8 +215,13 @@ def run_vecmon(case):
                 o, r, te, tr, info = super().step(action)
                 return o, (r if scale is None else r * scale), te, tr, info
 
-        venv = DummyVecEnv([(lambda sc=sc, j=j: ScaledEnv(sc, extra_info={"k1": 7 + j}, env_id=j)) for j, sc in enumerate(case["scripts"])])
-        vm = VM.VecMonitor(venv, filename=os.path.join(d, "vm"), info_keywords=kw)
+        inner = bool(case.get("inner_monitor"))   # Monitor inside VecMonitor: documented to warn; VecMonitor's entry replaces Monitor's
+        venv = DummyVecEnv([(lambda sc=sc, j=j: (M.Monitor(ScaledEnv(sc, extra_info={"k1": 7 + j}, env_id=j)) if inner else ScaledEnv(sc, extra_info={"k1": 7 + j}, env_id=j)))
+                            for j, sc in enumerate(case["scripts"])])
+        with warnings.catch_warnings(record=True) as wl:
+            warnings.simplefilter("always")
+            vm = VM.VecMonitor(venv, filename=os.path.join(d, "vm"), info_keywords=kw)
+        warned_double = any(issubclass(w.category, UserWarning) and "already wrapped" in str(w.message) for w in wl)
         events = []
         for op in case["ops"]:
             if op == "r":
@@ -190,7 +237,7 @@ def run_vecmon(case):
                                "tags": [int(inf["tag"]) for inf in infos], "k1": [int(inf["k1"]) for inf in infos]})
         vm.close()
         rows = _rows(M.load_results(d), kw)
-        return {"events": events, "rows": rows}
+        return {"events": events, "rows": rows, "warned_double": warned_double}
     finally:
         shutil.rmtree(d, ignore_errors=True)
 
@@ -244,12 +291,19 @@ def run_eval(case):
         def f():
             e = se.ScriptedEnv(sc, env_id=j)
             raw.append(e)
-            return M.Monitor(e) if mode == 1 else Lives(M.Monitor(e)) if mode == 3 else e
+            # 4: Monitor inside and VecMonitor outside (VecMonitor's entry wins); 5: Monitor around Monitor
+            return M.Monitor(e) if mode in (1, 4) else Lives(M.Monitor(e)) if mode == 3 else M.Monitor(M.Monitor(e)) if mode == 5 else e
         return f
 
     def build():
+        if case.get("raw_env"):            # a plain gym env: evaluate_policy vectorises it itself
+            return mk(0, case["scripts"][0])()
         venv = DummyVecEnv([mk(j, sc) for j, sc in enumerate(case["scripts"])])
-        return VM.VecMonitor(venv) if mode == 2 else venv
+        if mode in (2, 4):
+            with warnings.catch_warnings():
+                warnings.simplefilter("ignore")
+                return VM.VecMonitor(venv)
+        return venv
 
     env = build()
     calls = []
@@ -298,8 +352,8 @@ def model_exprs(case, impl):
         return ["true"]          # off the 1/4 grid the exact model does not apply: oracle with explicit tolerances only
     if case["kind"] == "monitor":
         ex = []
-        for w, sc in enumerate(case["scripts"]):
-            ops = coq_list(["UReset" if o[1] == "r" else "UStep" for o in case["ops"] if o[0] == w])
+        for w, sc in enumerate(mon_scripts(case)):
+            ops = coq_list(["UReset" if o[1] == "r" else "UStep" for o in case["ops"] if o[0] == w and o[1] != "r_missing"])
             ex.append(f"let '(s, outs) := mon_env_run {coq_bool(case['allow'])} {coq_script(sc)} cursor0 m0 {ops} in (outs, m_rows s, m_total s)")
         return ex
     if case["kind"] == "vecmon":
@@ -309,7 +363,8 @@ def model_exprs(case, impl):
     scs = coq_list([coq_script(sc) for sc in case["scripts"]])
     if "runaway" in impl:
         return ["true"]
-    return [f"evaluate_scripted {coq_nat(impl['steps'] + 3)} {coq_Z(case['mode'])} {coq_Z(case['n'])} {scs}"]
+    model_mode = {4: 2, 5: 1}.get(case["mode"], case["mode"])   # the doubled wrappers report the same entries as the outer one alone
+    return [f"evaluate_scripted {coq_nat(impl['steps'] + 3)} {coq_Z(model_mode)} {coq_Z(case['n'])} {scs}"]
 
 
 def _q(x):
@@ -343,13 +398,22 @@ def compare_monitor(case, impl, mv):
     probs = []
     kw = case["info_keywords"]
     # ---- oracle, from the property text: rewards returned since the last reset that was carried out
-    cur = {w: None for w in range(len(case["scripts"]))}      # None = not reset since construction / since the episode ended
+    cur = {w: None for w in range(len(mon_scripts(case)))}      # None = not reset since construction / since the episode ended
+    if not impl.get("empty_dir_raises", True):
+        probs.append(("oracle-load-results-empty-directory", "load_results on a directory without monitor files did not raise LoadMonitorResultsError"))
+    if not impl.get("dir_file_ok", True):
+        probs.append(("oracle-monitor-directory-filename", "Monitor(filename=<existing directory>) did not write <directory>/monitor.csv"))
     expected_rows = []
     per_mon_eps = {w: [] for w in cur}
     last_kw = {}
     rkw = bool(case.get("reset_kw"))
     for n, ev in enumerate(impl["events"]):
         w = ev["w"]
+        if ev["op"] == "r_missing":
+            refused_first = ev["out"] == "RuntimeError" and not case["allow"] and cur[w] is not None   # the early-reset refusal comes first
+            if ev["out"] != "ValueError" and not refused_first:
+                probs.append(("oracle-monitor-missing-reset-keyword-accepted", f"op {n}: reset() without the required keyword 'difficulty' did not raise ValueError"))
+            continue
         if ev["op"] == "r":
             running = cur[w] is not None
             if ev["out"] == "err":
@@ -388,7 +452,12 @@ def compare_monitor(case, impl, mv):
                 cur[w] = None
             elif ev["ep"] is not None:
                 probs.append(("oracle-monitor-spurious-episode-info", f"op {n}: 'episode' entry on a step that does not end the episode"))
-    if not _rows_close(impl["rows"], expected_rows, case):
+    if case.get("append") and not _rows_close(impl["rows"], expected_rows, case) and _rows_close(sorted(impl["rows"]), sorted(expected_rows), case):
+        # known class, precise predicate: a Monitor re-opened the file with override_existing=False; the rows are all there but load_results,
+        # which sorts by t, lists the appended episodes (whose t restarts at the new monitor's start) among the earlier ones
+        probs.append((APPEND_SIG, f"a Monitor appending to an existing file (override_existing=False) writes times relative to ITS start under the first header's t_start: "
+                      f"load_results lists {[r[:2] for r in impl['rows']]}, the episodes ended in the order {[r[:2] for r in expected_rows]}"))
+    elif not _rows_close(impl["rows"], expected_rows, case):
         probs.append(("oracle-monitor-file-rows", f"load_results rows {impl['rows']} != episodes that ended, in order {expected_rows}"))
     for w, st in enumerate(impl["stats"]):
         if not _rows_close([list(x) for x in zip(st["returns"], st["lengths"])], [list(x) for x in per_mon_eps[w]], case):
@@ -399,9 +468,9 @@ def compare_monitor(case, impl, mv):
     # ---- model vs impl
     if case.get("reward_scale") is not None:
         return probs
-    for w in range(len(case["scripts"])):
+    for w in range(len(mon_scripts(case))):
         outs, rows, total = mv[w]
-        evs = [ev for ev in impl["events"] if ev["w"] == w]
+        evs = [ev for ev in impl["events"] if ev["w"] == w and ev["op"] != "r_missing"]
         if len(outs) != len(evs):
             probs.append(("monitor-model-length", f"monitor {w}: {len(outs)} model outputs for {len(evs)} operations"))
             continue
@@ -419,7 +488,7 @@ def compare_monitor(case, impl, mv):
             probs.append(("monitor-rows", f"monitor {w}: model rows {rows} impl episodes {impl_rows}"))
         if total != impl["stats"][w]["total_steps"]:
             probs.append(("monitor-total-steps", f"monitor {w}: total_steps impl {impl['stats'][w]['total_steps']} model {total}"))
-    if len(case["scripts"]) == 1:
+    if len(mon_scripts(case)) == 1:
         if [(_q(r[0]), r[1]) for r in impl["rows"]] != [tuple(r) for r in mv[0][1]]:
             probs.append(("monitor-file-rows", f"load_results rows {impl['rows']} model {mv[0][1]}"))
     return probs
@@ -427,6 +496,8 @@ def compare_monitor(case, impl, mv):
 
 def compare_vecmon(case, impl, mv):
     probs = []
+    if impl.get("warned_double") is not None and impl["warned_double"] != bool(case.get("inner_monitor")):
+        probs.append(("oracle-vecmonitor-double-wrap-warning", f"warning about an inner Monitor issued={impl['warned_double']} with inner Monitor={bool(case.get('inner_monitor'))}"))
     k = len(case["scripts"])
     kw = case["info_keywords"]
     cur = [[] for _ in range(k)]
@@ -563,6 +634,9 @@ def run_cases(chk, cases):
 def main():
     chk = Check("C18", groups=["monitor"])
     chk.build_props()
+    from harness import c18_branchcov
+
+    cov = c18_branchcov.maybe_start(COV_TARGETS)   # VERIF_BRANCHCOV=1: which lines of the anchored functions this run executes
     n_cases = 1050 if chk.tier == "quick" else 9000
     cases = []
     corpus = os.path.join(common.VERIF, "corpus", "C18.jsonl")
@@ -573,12 +647,16 @@ def main():
         cases.append(gen_case(chk.rng, i))
     impls, results = run_cases(chk, cases)
     distinct = set()
-    hist = {"monitor": 0, "monitor_two_files": 0, "monitor_no_early_resets": 0, "vecmon": 0, "eval": 0, "eval_mode": {"0": 0, "1": 0, "2": 0, "3": 0}, "off_grid_rewards": 0,
+    hist = {"monitor": 0, "monitor_two_files": 0, "monitor_no_early_resets": 0, "vecmon": 0, "eval": 0, "eval_mode": {"0": 0, "1": 0, "2": 0, "3": 0, "4": 0, "5": 0}, "eval_raw_env": 0, "monitor_append": 0, "monitor_dir_filename": 0, "vecmon_inner_monitor": 0, "off_grid_rewards": 0,
             "eval_n_lt_envs": 0, "n_envs": {}, "info_keywords": {}}
     reported = set()
     for c, im, probs in zip(cases, impls, results):
         hist[c["kind"]] += 1
         hist["off_grid_rewards"] += int(c.get("reward_scale") is not None)
+        hist["eval_raw_env"] += int(bool(c.get("raw_env")))
+        hist["monitor_append"] += int(bool(c.get("append")))
+        hist["monitor_dir_filename"] += int(bool(c.get("dir_filename")))
+        hist["vecmon_inner_monitor"] += int(bool(c.get("inner_monitor")))
         if c["kind"] == "monitor":
             hist["monitor_two_files"] += int(len(c["scripts"]) == 2)
             hist["monitor_no_early_resets"] += int(not c["allow"])
@@ -594,7 +672,7 @@ def main():
         if nontrivial(c, im):
             distinct.add(json.dumps({k: c[k] for k in c if k != "id"}, sort_keys=True))
         if probs:
-            oracle_bad = [p for p in probs if p[0].startswith("oracle-")]
+            oracle_bad = [p for p in probs if p[0].startswith("oracle-") or p[0] == APPEND_SIG]
             sig = oracle_bad[0][0] if oracle_bad else "model-correspondence-" + probs[0][0]
             if sig in reported:
                 continue
@@ -623,6 +701,8 @@ def main():
         "pandas.read_csv inside load_results is exercised, not modelled",
         "evaluate_policy's results are attributed to sub-environments through its callback hook (locals()['i'] and the length of episode_rewards)",
     ]
+    if cov is not None:
+        chk.notes["branch_coverage"] = cov.report()
     return chk.finish()
 
 
